@@ -146,6 +146,8 @@ class Interp:
         if isinstance(e, ast.Constant):
             return {bool(e.value)}
         if isinstance(e, ast.Name):
+            if isinstance(env.get(e.id), str) and env[e.id].startswith('#'):
+                return {'#True': {True}, '#False': {False}}.get(env[e.id], {True, False})
             if e.id in self.flags and self.flags[e.id] is not None:
                 return {bool(self.flags[e.id])}
             return {True, False}
@@ -155,6 +157,8 @@ class Interp:
             dn = dotted_name(e.func)
             if dn in EXISTS_CALLS and e.args:
                 return {fs.get(self.path_key(e.args[0], env)) != A}
+            if dn in ('os.access', 'os.path.samefile', 'os.path.getsize', 'os.path.getmtime', 'os.path.islink', 'os.path.ismount'):
+                return {True, False}          # a query about permissions / metadata: no effect, either answer
             if self._has_fs_call(e):
                 raise Unsupported(e, 'file-system call in condition not understood')
         return {True, False}
@@ -391,6 +395,11 @@ class Interp:
         fs, envt = state
         env = dict(envt)
         E: Set = set()
+        # a flag of the writer that is re-assigned on the way (`safely = False` in a fallback branch) takes its new value for the rest of the path
+        if isinstance(st, ast.Assign) and len(st.targets) == 1 and isinstance(st.targets[0], ast.Name) and st.targets[0].id in self.flags and not self._has_fs_call(st.value):
+            v_ = st.value
+            env[st.targets[0].id] = ('#True' if v_.value else '#False') if isinstance(v_, ast.Constant) and isinstance(v_.value, (bool, type(None))) else '#?'
+            return {(fs, tuple(sorted(env.items())))}, E, E
         if isinstance(st, ast.If):
             outs = (set(), set(), set())
             for v in self.eval_cond(st.test, fs, env):
